@@ -593,6 +593,36 @@ def query_contracts(ctx: Ctx, which: set[str]) -> list[Ob]:
             obs.append(viol("R4q", fi.qualname, "pad", f"{e.msg} [{e.where}]", fi.loc))
         except (PathLimit, RecursionError):
             obs.append(unres("R4q", fi.qualname, "pad", "path limit", fi.loc))
+    if "sample-call" in which:
+        from ..shapes import BuiltinV
+
+        fi = repo.func(QUERIES + ".SamplingQuery.__call__")
+        it = Interp(repo)
+        st = State()
+        q = _abstract_query(ctx, st, QUERIES + ".SamplingQuery")
+        O_, K_ = Dim.sym("O"), Dim.sym("K")
+        it.consts["evaluate"] = fresh_tensor((O_, K_, N, DC))
+        circ = st.heap[q.oid]["_circuit"]
+        st.heap[circ.oid]["evaluate"] = BuiltinV("const.evaluate")
+        try:
+            res = list(it.call(fi, [IntV(N)], {}, st, selfv=q))
+            if not res:
+                obs.append(unres("R4q", fi.qualname, "sample-call", "every path raises", fi.loc))
+            for rv, s2 in res:
+                first = rv.items[0] if isinstance(rv, TupleV) and rv.items else rv
+                want = s2.norm_shape((N, DC))
+                if not isinstance(first, TensorV):
+                    obs.append(unres("R4q", fi.qualname, "sample-call", f"result not resolved: {_fmt(rv, s2)}", fi.loc))
+                elif s2.norm_shape(first.shape) != want:
+                    obs.append(viol("R4q", fi.qualname, "sample-call", f"returns samples of shape {fmt_shape(s2.norm_shape(first.shape))} from the (O, K, N, D) result of the sampling pass; documented (num_samples, num_variables) = {fmt_shape(want)}", fi.loc))
+                elif first.lay is not None and first.lay[0] is not None and first.lay[1] is not None and [l.split("|")[0] for l, _ in first.lay[0]] + [l.split("|")[0] for l, _ in first.lay[1]] != ["N", "Dc"]:
+                    obs.append(viol("R4q", fi.qualname, "sample-call", f"the returned (N, D) tensor is laid out {fmt_all(first.lay)}: rows are not the samples / columns not the variables", fi.loc))
+                else:
+                    obs.append(ok("R4q", fi.qualname, "sample-call", f"{fmt_shape(want)} laid out {fmt_all(first.lay)}", fi.loc))
+        except ShapeError as e:
+            obs.append(viol("R4q", fi.qualname, "sample-call", f"{e.msg} [{e.where}]", fi.loc))
+        except (PathLimit, RecursionError):
+            obs.append(unres("R4q", fi.qualname, "sample-call", "path limit", fi.loc))
     if "integrate" in which:
         fi = repo.func(QUERIES + ".IntegrateQuery._layer_fn")
         for c in repo.subclasses(repo.cls(INPUT_FN)):
